@@ -1,6 +1,30 @@
 """Generator of aa rules as structures (wire form shared with the harness and the driver)."""
 import base64
-from lib import esc, esc_list
+import glob
+import os
+import re
+from lib import esc, esc_list, REPO
+
+
+def harvest():
+    """strings the code or the policy treats specially: path-like string literals of pkg/aa (non-test sources) and the
+    include targets of the shipped profiles. A constant that gets special treatment in Compare/Merge/Parse is in here."""
+    res = []
+    for f in sorted(glob.glob(os.path.join(REPO, 'pkg', 'aa', '*.go'))):
+        if f.endswith('_test.go') or 'verif' in os.path.basename(f):
+            continue
+        for m in re.finditer(r'"([^"\\\n]{2,60})"', open(f, encoding='utf-8', errors='replace').read()):
+            v = m.group(1)
+            if '/' in v and ' ' not in v and '%' not in v and '{{' not in v:
+                res.append(v)
+    incs = {}
+    for f in sorted(glob.glob(os.path.join(REPO, 'apparmor.d', 'groups', '*', '*')))[::7]:
+        try:
+            for m in re.finditer(r'include (?:if exists )?<([^>\n]+)>', open(f, encoding='utf-8', errors='replace').read()):
+                incs[m.group(1)] = 1
+        except OSError:
+            pass
+    return list(dict.fromkeys(res)), sorted(incs)[:60]
 
 # field types per kind in declaration order: s string, l list, b bool
 SCHEMA = {
@@ -23,7 +47,7 @@ CANON_STR = ['/etc/a', '/etc/b', '/etc/a/b', '@{bin}/a', '@{bin}/ab', '@{lib}/x'
              '@{run}/x', '/dev/null', '/opt/x', '/var/x', '/a', 'foo', 'bar', 'foo-bar', 'a.b', 'org.x.y', 'tcp', 'x',
              '/tmp/x', '@{tmp}/y', '/dev/shm/z', '/{a,b}', '/a*', '/a**', 'session', 'system', ':1.2',
              'abstractions/base', 'abstractions/base', 'abstractions/bas', 'abstractions/base-x',
-             '9', '10', '1024', '01024', '1min', '5m', '100', '99']
+             '9', '10', '1024', '01024', '1min', '5m', '100', '99', '/dev/shm/a', '/dev/shm/', '/dev/shm', '/dev/a']
 NUMS = ['9', '10', '1024', '01024', '1min', '5m', '100', '99', '2', '1h', 'infinity']
 ODD_STR = ['/Foo', '/foo', '/ETC/a', '@{HOME}/.x', '@{PROC}/1', '/a b', '/a\tb', '/a b c', '@{HOME}/X', '"/q r"',
            'Org.X', 'org.X']
@@ -35,11 +59,15 @@ class Gen:
         self.req = tables['Aa']['Requirements']
         self.alpha = set(base64.b64decode(tables['Aa']['StringAlphabet']).decode('latin-1'))
         self.file_alpha = tables['Aa']['FileAlphabet']
+        self.code_literals, self.shipped_includes = harvest()
+        self.harvested = self.code_literals + self.shipped_includes
 
     def s(self, odd):
         r = self.rng
         if r.random() < 0.2:
             return ''
+        if self.harvested and r.random() < 0.12:
+            return r.choice(self.harvested)
         pool = ODD_STR if (odd and r.random() < 0.4) else CANON_STR
         return r.choice(pool)
 
@@ -79,6 +107,11 @@ class Gen:
                 f.append(self.lst(kind, i))
             else:
                 f.append(r.random() < 0.3)
+        if kind == 'include' and r.random() < 0.4:
+            # include targets the code names itself (magic entries of the include order), against each other
+            magic = [v for v in self.code_literals if v.startswith('abstractions/') or v.startswith('tunables/')]
+            if magic:
+                f[1] = r.choice(magic)
         if kind == 'rlimit' and r.random() < 0.7:
             # same resource, values that look like numbers: where a numeric and a textual order would part
             f = [r.choice(['cpu', 'nofile', 'nice']), '<=', r.choice(NUMS)]
